@@ -9,7 +9,7 @@ EXPLANATION = (
     "augmented, never stored un-copied, transitively through the resolved callees it is passed to (super().__init__, NMEA2000Decoder(...), "
     "split_pgn_list). [NO-GLOBAL-WRITE] no function of the package (1359 generated + hand-written) declares global/nonlocal or mutates a module-level "
     "name (lookup tables included). [INSTANCE-STATE] decoder/encoder attributes are created in __init__; later stores are only the inventoried ones. "
-    "[STATE-DEPS] the guards of every return/store in _decode, _decode_fast_message and _call_decode_function read only configuration attributes (never mutated outside __init__), the source map and the reassembly buffers -- bookkeeping such as the logged-PGN set decides nothing. [FRESH-MSG] every leaf decoder constructs its message inside the call and returns that object (C01 GEN-DEC return obligations). [RA-SAFE] in the "
+    "[STATE-DEPS] the guards of every return/store in _decode, _decode_fast_message and _call_decode_function read only configuration attributes (never mutated outside __init__), the source map and the reassembly buffers -- bookkeeping such as the logged-PGN set decides nothing. [FRESH-MSG] every leaf decoder constructs its message inside the call and returns that object (C01 GEN-DEC return obligations). [RA-RESET]/[RA-PRE]/[RA-DONE]/[RA-KEY] (C04's clauses that make a complete message with a fresh counter independent of what was received before). [RA-SAFE] in the "
     "reassembly step every index that can fail on a truncated frame precedes all writes to the record. UNDECIDED: 'identically after any history' as "
     "such (needs C04/C10/C11's mechanisms composed)."
 )
@@ -17,7 +17,7 @@ ASSUMPTIONS = ["CPython ast parser", "method resolution inside ioclient.py by cl
 
 def run(chk, program, tier):
     for r, t in (('NO-CLASS-STATE', 'no shared mutable class attribute'), ('DEFAULTS-RO', 'mutable defaults are read-only, transitively'), ('NO-GLOBAL-WRITE', 'no module-level state written'),
-                 ('INSTANCE-STATE', 'state created per instance'), ('STATE-DEPS', 'only configuration, source map and reassembly buffers influence results; configuration is immutable'), ('FRESH-MSG', 'message objects are fresh per decode'), ('RA-SAFE', 'raise before write in reassembly')):
+                 ('INSTANCE-STATE', 'state created per instance'), ('STATE-DEPS', 'only configuration, source map and reassembly buffers influence results; configuration is immutable'), ('FRESH-MSG', 'message objects are fresh per decode'), ('RA-SAFE', 'raise before write in reassembly'), ('RA-RESET', 'a fresh sequence counter restarts the record completely'), ('RA-PRE', 'stray later frames write nothing'), ('RA-DONE', 'record deleted on delivery'), ('RA-KEY', 'streams do not share a record')):
         chk.rule(r, t)
     I.no_class_state(chk, program)
     I.defaults_ro(chk, program)
@@ -28,13 +28,16 @@ def run(chk, program, tier):
     before = len(chk.obs)
     R.gen_dec(chk, program, slots=[], rule='FRESH-MSG', with_msg=False, with_flow=True)
     # RA-SAFE from C04
-    sub = _Sub(chk, {'RA-SAFE'})
+    sub = _Sub(chk, {'RA-SAFE', 'RA-RESET', 'RA-PRE', 'RA-DONE', 'RA-KEY'})
     D.reassembly(sub, program)
 
 class _Sub:
     """forwards only the selected rules of a shared rule function"""
     def __init__(self, chk, keep):
         self.chk = chk; self.keep = keep
+        self.obs = chk.obs
+        self.units = {}
+        self.errors = chk.errors
     def check(self, cond, rule, *a, **k):
         if rule in self.keep:
             return self.chk.check(cond, rule, *a, **k)
